@@ -7,6 +7,11 @@ configuration the harness builds: two optimisers in a `MetaOptimizerInfos`, a
 `SimpleMultiDimensions` for a first group of parameter names and a `BfgsMultiDimensions` for a second
 one (possibly empty), both with the same iteration type (`step` / `full`).
 
+(Round 3 repairs: the shortcut "a single optimiser has parameters: tolerance reached" applies only when
+that optimiser is iterated in `full` mode and has been run with the final tolerance.  Other configurations
+— Powell / conjugate gradient members, a single member — are built by the harness and explored through
+the predicates only.)
+
 The decimal logarithm is not an operation of `Scalar`: it is a parameter `log10` of the model (the
 driver passes libm's; the schedule of tolerances it feeds plays no role in any theorem).
 -/
@@ -99,10 +104,11 @@ def metaRunBfgs (I : FunI F α) (fuel : Nat) (s : St F (Meta α) α) (tol : α) 
           .ok { s with fn := sub.fn, core := { s.core with params := own, nbEval := s.core.nbEval + sub.core.nbEval },
                        ext := { s.ext with p2 := p2, c2 := sub.core, e2 := sub.ext } }
 
-/-- `MetaOptimizer::doStep` (MetaOptimizer.cpp:121-176) -/
+/-- `MetaOptimizer::doStep` (MetaOptimizer.cpp:121-181) -/
 def metaDoStep (I : FunI F α) (fuel : Nat) (s : St F (Meta α) α) : Except (Exc × F) (St F (Meta α) α × α) :=
   let sc := s.ext.stepCount + 1
   let s := { s with ext := { s.ext with stepCount := sc } }
+  let progressive := decide (sc ≤ s.ext.n) && gtb (abs s.ext.initialValue) zero
   let tol :=
     if sc ≤ s.ext.n && gtb (abs s.ext.initialValue) zero then
       abs s.ext.initialValue * pow (ofInt 10) (ofInt (Int.ofNat sc) * s.ext.precisionStep)
@@ -114,7 +120,9 @@ def metaDoStep (I : FunI F α) (fuel : Nat) (s : St F (Meta α) α) : Except (Ex
     | .error e => .error e
     | .ok s =>
       let tolTest := (if s.ext.p1.length > 0 then 1 else 0) + (if s.ext.p2.length > 0 then 1 else 0)
-      .ok ({ s with core := { s.core with tol := decide (tolTest = 1) } }, I.value s.fn)
+      -- (repaired) a single active optimiser ends the run only when it is iterated in `full` mode and has
+      -- been run with the final tolerance (not with one of the coarser ones of the progressive steps)
+      .ok ({ s with core := { s.core with tol := decide (tolTest = 1) && s.ext.full && !progressive } }, I.value s.fn)
 
 def metaAlgo (I : FunI F α) (log10 : α → α) (fuel : Nat) : Algo F (Meta α) α :=
   { doInit := metaDoInit I log10,
